@@ -80,6 +80,9 @@ type Env struct {
 	rq       map[int][][]byte // per task: candidate queues of delivered, unused entropy
 	protect0 uint64
 	poisoned bool
+	schedIDs []int // scheduler task index -> task id of the current scheduled phase
+	Va       *arena.Vars
+	useVa    bool // C15: the task's variables live in guarded pages
 }
 
 // noMGlob switches the global-state monitor off. It exists only for the
@@ -227,7 +230,7 @@ func (x *Env) call(f func() error) (o implOut) {
 			o.pval = r
 			if ae, ok := r.(interface{ Addr() uintptr }); ok {
 				a := ae.Addr()
-				if x.Ar != nil && x.Ar.Contains(a) {
+				if (x.Ar != nil && x.Ar.Contains(a)) || (x.useVa && x.Va.Contains(a)) {
 					o.trapped = true
 					o.addr = a
 				}
@@ -239,6 +242,14 @@ func (x *Env) call(f func() error) (o implOut) {
 }
 
 func (x *Env) trapDetail(addr uintptr) (site, detail string) {
+	if x.useVa && x.Va.Contains(addr) {
+		slot, off := x.Va.Locate(addr)
+		what := fmt.Sprintf("element variable %d", slot)
+		if slot >= x.R.NE {
+			what = fmt.Sprintf("scalar variable %d", slot-x.R.NE)
+		}
+		return "argument", fmt.Sprintf("memory fault at offset %d of %s, which is not the receiver of this call: the library stored into a caller-owned argument", off, what)
+	}
 	bi, off, ok := x.Ar.Locate(addr)
 	if !ok {
 		return "arena", fmt.Sprintf("fault at %#x inside the arena, outside any backing", addr)
@@ -493,6 +504,25 @@ func (x *Env) argsKeptValue(ts *taskState, oi int, op *Op, ea []*secp.Element, s
 	return true
 }
 
+// home moves every variable of the task back into its guarded page (calls
+// such as Copy, Base() or HashToGroup hand out heap objects).
+func (x *Env) home(ts *taskState) {
+	for i, e := range ts.E {
+		slot := x.Va.Slot(i)
+		if unsafe.Pointer(e) != unsafe.Pointer(&slot[0]) {
+			copy(slot, unsafe.Slice((*byte)(unsafe.Pointer(e)), elemSize))
+			ts.E[i] = (*secp.Element)(unsafe.Pointer(&slot[0]))
+		}
+	}
+	for i, sc := range ts.S {
+		slot := x.Va.Slot(x.R.NE + i)
+		if unsafe.Pointer(sc) != unsafe.Pointer(&slot[0]) {
+			copy(slot, unsafe.Slice((*byte)(unsafe.Pointer(sc)), scalSize))
+			ts.S[i] = (*secp.Scalar)(unsafe.Pointer(&slot[0]))
+		}
+	}
+}
+
 func (x *Env) bad(why string) {
 	if x.incon == nil {
 		x.incon = Inconclusive{why}
@@ -510,6 +540,10 @@ func (x *Env) step(ts *taskState, oi int, op *Op) {
 	if op.K == "scribble" {
 		x.scribble(ts, oi, op)
 		if !x.abort {
+			if x.useVa {
+				x.Va.SetAll(x.R.NE+x.R.NS, true)
+				defer x.Va.SetAll(x.R.NE+x.R.NS, false)
+			}
 			x.observe(ts, oi, op, -1, -1)
 		}
 		return
@@ -584,8 +618,21 @@ func (x *Env) step(ts *taskState, oi int, op *Op) {
 		}
 	}
 
-	// ---- run the implementation
+	// ---- run the implementation (C15 with guarded variables: only the
+	// receiver's page is writable during the call)
+	recvSlot := r
+	if !isE {
+		recvSlot = x.R.NE + r
+	}
+	if x.useVa {
+		x.Va.SetOne(recvSlot, true)
+	}
 	out := x.call(f)
+	if x.useVa {
+		x.Va.SetAll(x.R.NE+x.R.NS, true)
+		defer x.Va.SetAll(x.R.NE+x.R.NS, false)
+		x.home(ts)
+	}
 
 	if out.trapped {
 		site, d := x.trapDetail(out.addr)
@@ -667,6 +714,9 @@ func (x *Env) step(ts *taskState, oi int, op *Op) {
 		if x.abort {
 			return
 		}
+	}
+	if x.useVa {
+		x.home(ts)
 	}
 
 	// ---- update model state
@@ -1305,6 +1355,11 @@ func (x *Env) retain(ts *taskState, oi int, op *Op, what string, b []byte) bool 
 func (x *Env) newTask(id, ne, ns int) *taskState {
 	ts := newTask(id, ne, ns)
 	x.all = append(x.all, ts)
+	if x.useVa {
+		x.Va.SetAll(ne+ns, true)
+		x.home(ts)
+		x.Va.SetAll(ne+ns, false)
+	}
 	return ts
 }
 
@@ -1341,8 +1396,8 @@ type Result struct {
 }
 
 // Exec executes a run. globals must have been captured at process start.
-func Exec(run *Run, ar *arena.Arena, g *Globals, sites *SiteTable) (res Result) {
-	x := &Env{R: run, G: g, St: NewStats(), Sites: sites}
+func Exec(run *Run, ar *arena.Arena, va *arena.Vars, g *Globals, sites *SiteTable) (res Result) {
+	x := &Env{R: run, G: g, St: NewStats(), Sites: sites, Va: va}
 	res.Stats = x.St
 	debug.SetPanicOnFault(true)
 	defer func() {
@@ -1394,6 +1449,12 @@ func Exec(run *Run, ar *arena.Arena, g *Globals, sites *SiteTable) (res Result) 
 		x.Dev = entropy.NewDevice(run.Entropy)
 		x.Dev.Cur = func() int {
 			if x.Sch != nil && x.Sch.Active() {
+				if c := x.Sch.Cur(); c < len(x.schedIDs) {
+					return x.schedIDs[c]
+				}
+				if x.curTask != nil {
+					return x.curTask.id
+				}
 				return x.Sch.Cur()
 			}
 			if x.curTask != nil {
@@ -1433,10 +1494,13 @@ func Exec(run *Run, ar *arena.Arena, g *Globals, sites *SiteTable) (res Result) 
 			return x.finish()
 		}
 	}
-	if concurrent && run.Arena {
-		if !PointerFree() {
-			return Result{Incon: Inconclusive{"Element/Scalar contain pointers: cannot be placed in the guarded arena"}, Stats: x.St}
-		}
+	if concurrent && run.Arena && !PointerFree() {
+		// the argument types hold pointers on this tree: they cannot live in
+		// untracked memory, so the shared pool stays on the heap and is guarded by
+		// byte comparison after every call instead of by the write trap
+		x.St.Probes["shared_pool_on_heap_types_contain_pointers"]++
+	}
+	if concurrent && run.Arena && PointerFree() {
 		for i, e := range setup.E {
 			_, mem, err := ar.Alloc(int(elemSize))
 			if err != nil {
@@ -1480,6 +1544,11 @@ func Exec(run *Run, ar *arena.Arena, g *Globals, sites *SiteTable) (res Result) 
 
 	if !concurrent {
 		x.phase = "single"
+		if run.Prop == "C15" && run.Arena && va != nil && PointerFree() && run.NE+run.NS <= va.N() && len(run.Setup) == 0 {
+			x.useVa = true
+			defer va.SetAll(va.N(), true)
+			x.St.Probes["variables_in_guarded_pages"]++
+		}
 		hasScribble := false
 		if len(run.Tasks) == 1 {
 			for _, o := range run.Tasks[0] {
@@ -1517,10 +1586,44 @@ func Exec(run *Run, ar *arena.Arena, g *Globals, sites *SiteTable) (res Result) 
 		return x.finish()
 	}
 
-	// ---- solo pre-pass: each task alone; yields counted, never switched
+	// ---- solo pre-pass: each task alone. Without library goroutines the
+	// yields are merely counted; with them the task runs under the scheduler
+	// (serial policy: a goroutine the library starts runs when its parent blocks
+	// or finishes), so that "alone" is itself a deterministic execution.
 	x.phase = "solo"
+	libGo := sites != nil && sites.GoStmt > 0
 	var soloSteps uint64
-	secp.VerifSetYieldHook(func(uint32) { soloSteps++ })
+	alone := func(ts *taskState, ops []Op) {
+		if !libGo {
+			secp.VerifSetYieldHook(func(uint32) { soloSteps++ })
+			x.runTask(ts, ops)
+			secp.VerifSetYieldHook(nil)
+			return
+		}
+		ss := sched.New(sched.Spec{Policy: "serial"}, prng.New(1), 0, nil)
+		ss.MayBlock = true
+		x.Sch = ss
+		x.schedIDs = []int{ts.id}
+		secp.VerifSetYieldHook(ss.Hook)
+		secp.VerifSetSpawnHook(ss.Spawn)
+		ss.Run([]func(){func() { x.runTask(ts, ops) }})
+		secp.VerifSetYieldHook(nil)
+		secp.VerifSetSpawnHook(nil)
+		x.Sch = nil
+		soloSteps += ss.Step
+		if ss.Deadlock != nil {
+			x.poisoned = true
+			if run.Prop == "C16" {
+				x.fail(ts, ts.curOp, ts.curOpP, "M-live", "deadlock", "a call made by a single caller never returns: "+ss.Deadlock.Error())
+			} else {
+				x.bad(ss.Deadlock.Error())
+			}
+		} else if ss.Aborted != nil {
+			x.bad(ss.Aborted.Error())
+		} else if ss.TaskPanic != nil {
+			x.bad(fmt.Sprintf("task panicked outside an op: %v", ss.TaskPanic))
+		}
+	}
 	x.solo = make([][]uint64, len(run.Tasks))
 	hasRandom := make([]bool, len(run.Tasks))
 	for ti, ops := range run.Tasks {
@@ -1529,22 +1632,26 @@ func Exec(run *Run, ar *arena.Arena, g *Globals, sites *SiteTable) (res Result) 
 				hasRandom[ti] = true
 			}
 		}
+		if run.Prop != "C16" {
+			continue // "as if run alone" is C16's statement
+		}
 		ts := x.newTask(ti, run.NE, run.NS)
-		x.runTask(ts, ops)
+		alone(ts, ops)
 		if x.abort {
-			secp.VerifSetYieldHook(nil)
 			return x.finish()
 		}
 		if !hasRandom[ti] {
 			x.solo[ti] = ts.digest
 		}
 	}
-	secp.VerifSetYieldHook(nil)
 	if run.EstSteps == 0 {
 		run.EstSteps = soloSteps
+		if soloSteps == 0 {
+			for _, ops := range run.Tasks {
+				run.EstSteps += 20000 * uint64(len(ops))
+			}
+		}
 	}
-	soloOps := *x.St
-	_ = soloOps
 
 	// ---- concurrent phase
 	x.phase = "concurrent"
@@ -1563,6 +1670,10 @@ func Exec(run *Run, ar *arena.Arena, g *Globals, sites *SiteTable) (res Result) 
 		s.MayBlock = sites.MayBlock
 	}
 	x.Sch = s
+	x.schedIDs = nil
+	for ti := range run.Tasks {
+		x.schedIDs = append(x.schedIDs, ti)
+	}
 	states := make([]*taskState, len(run.Tasks))
 	s.OnStep = func(site uint32) {
 		if name, ok := g.CheckRaw(); !ok && x.viol == nil && run.Prop == "C16" && !noMGlob {
@@ -1616,11 +1727,9 @@ func Exec(run *Run, ar *arena.Arena, g *Globals, sites *SiteTable) (res Result) 
 	// ---- tasks that drew entropy: "what it would return if run alone" is
 	// decided by re-running each of them alone on exactly the reads (bytes,
 	// chunking, failures) it was served in the concurrent run
-	if x.viol == nil && x.incon == nil && !x.poisoned {
+	if x.viol == nil && x.incon == nil && !x.poisoned && run.Prop == "C16" {
 		x.phase = "solo-playback"
 		x.Sch = nil
-		var n uint64
-		secp.VerifSetYieldHook(func(uint32) { n++ })
 		concLog := x.Dev.Log
 		for ti := range run.Tasks {
 			if !hasRandom[ti] || x.abort {
@@ -1637,16 +1746,17 @@ func Exec(run *Run, ar *arena.Arena, g *Globals, sites *SiteTable) (res Result) 
 			}
 			x.rq = nil
 			x.Dev = entropy.NewDevice(entropy.Script{Playback: pb})
-			x.Dev.Cur = func() int { return ti }
+			tid := ti
+			x.Dev.Cur = func() int { return tid }
 			crand.Reader = x.Dev
-			alone := x.newTask(ti, run.NE, run.NS)
-			x.runTask(alone, run.Tasks[ti])
+			at := x.newTask(ti, run.NE, run.NS)
+			alone(at, run.Tasks[ti])
 			if x.abort {
 				break
 			}
 			conc := states[ti].digest
-			for k := 0; k < len(conc) || k < len(alone.digest); k++ {
-				if k >= len(conc) || k >= len(alone.digest) || conc[k] != alone.digest[k] {
+			for k := 0; k < len(conc) || k < len(at.digest); k++ {
+				if k >= len(conc) || k >= len(at.digest) || conc[k] != at.digest[k] {
 					oi := min(k, len(run.Tasks[ti])-1)
 					x.fail(states[ti], oi, &run.Tasks[ti][oi], "M-solo", "observe", "observable state after this call differs from the same task run alone on the same entropy reads")
 					break
@@ -1654,7 +1764,6 @@ func Exec(run *Run, ar *arena.Arena, g *Globals, sites *SiteTable) (res Result) 
 			}
 			x.St.Probes["random_task_replayed_alone"]++
 		}
-		secp.VerifSetYieldHook(nil)
 	}
 	// schedule signature: sequence of (from,to,site) of in-op switches
 	var sh uint64 = 0xcbf29ce484222325
